@@ -39,21 +39,14 @@ func (n Notif) String() string {
 
 type Script []Notif
 
-// Parse parses "1 2 E 3 C" (also accepts compact "12E3C" when no spaces and single digits).
+// Parse parses "1 2 E 3 C" (tokens separated by spaces or commas).
 func Parse(s string) Script {
 	var out Script
 	s = strings.TrimSpace(s)
 	if s == "" || s == "-" {
 		return out
 	}
-	var toks []string
-	if strings.ContainsAny(s, " ,") {
-		toks = strings.FieldsFunc(s, func(r rune) bool { return r == ' ' || r == ',' })
-	} else {
-		for _, r := range s {
-			toks = append(toks, string(r))
-		}
-	}
+	toks := strings.FieldsFunc(s, func(r rune) bool { return r == ' ' || r == ',' })
 	for _, t := range toks {
 		switch t {
 		case "E":
